@@ -358,7 +358,7 @@ func (ex *Exec) ghostStruct(t types.Type, name string) *StructV {
 			if _, dup := sv.Ghost[g.Name]; dup {
 				continue
 			}
-			srt, err := sortByName(g.Sort)
+			srt, err := sortByName(ghostSortName(t, g.Sort))
 			if err != nil {
 				panic(err)
 			}
@@ -389,6 +389,39 @@ func (ex *Exec) ghostStruct(t types.Type, name string) *StructV {
 		}
 	}
 	return sv
+}
+
+// ghostSortName resolves a ghost sort that mentions a type parameter of the declaring generic type
+// (e.g. `Arr_U_T` on ColumnOf[T]) for an instance of that type: ColumnOf[K] gives Arr_U_K, a scalar
+// type argument gives its SMT sort, anything else an uninterpreted sort named after the type.
+func ghostSortName(t types.Type, sortName string) string {
+	i := strings.Index(sortName, "U_")
+	if i < 0 {
+		return sortName
+	}
+	nt, ok := types.Unalias(t).(*types.Named)
+	if !ok || nt.TypeArgs() == nil || nt.Origin().TypeParams() == nil {
+		return sortName
+	}
+	pname := sortName[i+2:]
+	tps := nt.Origin().TypeParams()
+	for j := 0; j < tps.Len() && j < nt.TypeArgs().Len(); j++ {
+		if tps.At(j).Obj().Name() != pname {
+			continue
+		}
+		arg := nt.TypeArgs().At(j)
+		if s, ok := scalarSort(arg); ok {
+			switch s {
+			case SInt:
+				return sortName[:i] + "Int"
+			case SBool:
+				return sortName[:i] + "Bool"
+			}
+			return sortName[:i] + string(s)
+		}
+		return sortName[:i] + "U_" + sanitize(arg.String())
+	}
+	return sortName
 }
 
 // lookupInterface resolves "pkgpath.Name" to an interface type of the loaded program.
@@ -497,6 +530,7 @@ func (fr *FnRun) applyContract(st *State, site ssa.Instruction, ctr *Contract, f
 		post["result"] = results[0]
 	}
 	penv := &Env{st: st, old: old, vars: post, fr: fr, pkg: ctr.Pkg}
+	fr.bindLets(st, ctr, penv)
 	// alias clauses `res == E` for reference-typed results bind the result instead of being assumed
 	skip := map[*Clause]bool{}
 	for _, en := range ctr.Ensures {
@@ -519,7 +553,7 @@ func (fr *FnRun) applyContract(st *State, site ssa.Instruction, ctr *Contract, f
 		}
 	}
 	for _, en := range ctr.Ensures {
-		if skip[en] {
+		if skip[en] || en.Internal {
 			continue
 		}
 		t := fr.evalBool(en.E, penv)
@@ -578,6 +612,21 @@ func (fr *FnRun) applyContract(st *State, site ssa.Instruction, ctr *Contract, f
 	k(st, res)
 }
 
+// bindLets evaluates the contract's `let` abbreviations in the post-state environment and binds
+// each name to a fresh constant defined by an equation (never propagated, so clauses sharing a
+// long position expression stay small).
+func (fr *FnRun) bindLets(st *State, ctr *Contract, env *Env) {
+	for _, l := range ctr.Lets {
+		t, ok := fr.ex.force(env.st, fr.eval(l.E, env)).(*Term)
+		if !ok {
+			panic(abortf("let %s: not a scalar expression", l.Name))
+		}
+		c := Var(fr.ex.fresh("let!"+l.Name), t.Sort)
+		st.assume(Eq(c, t))
+		env.vars[l.Name] = c
+	}
+}
+
 // havocLoc havocs one `modifies` location.  Supported forms:
 //   x.f        field f of the struct x points to (real or ghost)
 //   all(x)     everything reachable from x
@@ -593,6 +642,12 @@ func (fr *FnRun) havocLoc(st *State, m *Expr, env *Env) {
 		}
 		if m.X.Kind == "ident" && m.X.Name == "contents" && len(m.Args) == 1 {
 			v := ex.force(env.st, fr.eval(m.Args[0], env))
+			if mv, isMap := v.(*MapV); isMap {
+				if !mv.Nil.IsTrue() && mv.Obj != nil {
+					st.heap[mv.Obj] = ex.freshMap(mv, ex.fresh(mv.Obj.Name))
+				}
+				return
+			}
 			s, ok := v.(*SliceV)
 			if !ok {
 				panic(abortf("modifies contents(%s): not a slice (%T)", m.Args[0], v))
